@@ -36,7 +36,7 @@ def _position_read_facts(rep):
         except Exception as e:
             rep.add(Obligation(oid, ERROR, "dataflow", 0.0, "reads() failed: %r" % (e,)))
             continue
-        bad = sorted(x for x in r if x.split(".")[-1].replace("()", "") in ("latlon2pos", "pos2latlon", "geo_scale", "_geo_scale"))
+        bad = sorted(x for x in r if x.split(".")[-1].replace("()", "") in ("latlon2pos", "pos2latlon"))
         ok = must in r and not bad
         rep.add(Obligation(oid, DISCHARGED if ok else FAILED, "dataflow", time.time() - t0,
                            "" if ok else "missing %s or direct geometry reads %s" % (must, bad),
